@@ -30,7 +30,7 @@ RULE = ("histories: every sequence up to length L1 over the 9-operation alphabet
         "paths, ChoiceLoader of two DictLoaders) over {get, select, put / delete in layer 1 or layer 2}, where a "
         "put into layer 1 shadows the template loaded from layer 2 (also with names in sub directories and a first search path that do "
         "not exist until the put); templates that are symbolic links whose target is modified / deleted; histories in which env.auto_reload is switched on / off "
-        "between requests.  each get / select rotates through the entry points (get_template, "
+        "between requests; source changes made by REPLACING the loader's container object (mapping / load_func / searchpath).  each get / select rotates through the entry points (get_template, "
         "get_or_select_template, select_template([name]), tuple of names) and optional arguments (globals=, parent=, str "
         "subclass as name).  distinct = (loader kind, auto_reload, size, history); non-trivial = a get/select "
         "follows a put or delete of a name that was loaded before.")
@@ -41,6 +41,7 @@ ALPHA_FULL = ["g:1", "g:2", "s:1,2", "s:2,1", "p:1:1", "p:1:2", "p:2:2", "d:1", 
 ALPHA_RED = ["g:1", "g:2", "p:1:2", "p:1:1", "d:1", "s:2,1"]
 ALPHA_3 = ["g:1", "g:2", "g:3", "p:1:2", "d:1"]
 ALPHA_4 = ["g:1", "g:2", "g:3", "g:4"]
+ALPHA_REP = ["g:1", "R:1:2", "R:1:1", "d:1", "s:1,2", "p:1:2"]      # the loader's container object is replaced
 ALPHA_TOG = ["g:1", "p:1:2", "d:1", "a:1", "a:0", "s:1,2"]      # env.auto_reload switched between requests      # recency below capacity: sizes 2, 3, 4 over four names
 INIT = {1: 1, 2: 1, 3: 1, 4: 1}
 INIT2 = {1: 3, 2: 3, 3: 3, 4: 3}          # layered kinds: everything starts in layer 2 (versions 3, 4); layer 1 uses versions 1, 2
@@ -96,20 +97,43 @@ class World:
                 self.maps = [{}, {NAMES[n]: src(n, v) for n, v in self.layers[1].items()}]
                 self.loader = jinja2.ChoiceLoader([jinja2.DictLoader(self.maps[0]), jinja2.DictLoader(self.maps[1])])
         else:
-            st = self.state
-            inv = {v: k for k, v in NAMES.items()}
+            self.loader = jinja2.FunctionLoader(self._make_func())
 
-            def load_func(name, kind=kind):
-                n = inv.get(name)
-                v = st.get(n)
-                if v is None:
-                    return None
-                if kind == "funcN":
-                    return src(n, v)
-                if kind == "funcV":
-                    return src(n, v), None, (lambda: st.get(n) == v)
-                return src(n, v), None, (lambda: kind == "funcT")
-            self.loader = jinja2.FunctionLoader(load_func)
+    def _make_func(self):
+        st = self.state
+        inv = {v: k for k, v in NAMES.items()}
+        kind, world = self.kind, self
+
+        def load_func(name):
+            n = inv.get(name)
+            v = st.get(n)
+            if v is None:
+                return None
+            if kind == "funcN":
+                return src(n, v)
+            if kind == "funcV":
+                return src(n, v), None, (lambda: world.state.get(n) == v)      # asks the world as it is NOW
+            return src(n, v), None, (lambda: kind == "funcT")
+        return load_func
+
+    def replace(self, n, v):
+        """the same source change as put(), made by REPLACING the loader's container object (a new mapping / state dict and
+        load_func / search path list) instead of mutating it in place"""
+        if self.kind == "dict":
+            new = dict(self.mapping)
+            new[NAMES[n]] = src(n, v)
+            self.state[n] = v
+            self.mapping = new
+            self.loader.mapping = new
+        elif self.kind.startswith("func"):
+            self.state = dict(self.state)
+            self.state[n] = v
+            self.loader.load_func = self._make_func()
+        elif self.kind in ("fs", "fslink"):
+            self.loader.searchpath = list(self.loader.searchpath)
+            self.put(n, v)
+        else:
+            self.put(n, v)
 
     def _write_at(self, layer, n, v):
         p = os.path.join(self.dirs[layer], self.names[n])
@@ -236,6 +260,10 @@ def real_run(jinja2, kind, ar, size, ops, fsdir=None):
             continue
         if p[0] in ("p1", "p2", "d1", "d2"):
             w.layer_op(int(p[0][1]) - 1, int(p[1]), int(p[2]) if p[0][0] == "p" else None)
+            res.append("U")
+            continue
+        if p[0] == "R":
+            w.replace(int(p[1]), int(p[2]))
             res.append("U")
             continue
         if p[0] == "p":
@@ -369,7 +397,7 @@ def line(kind, ar, size, ops):
         init = " ".join(f"2 {n} {v}" for n, v in INIT2.items())
         return f"Y {ar} {'C' if kind == 'choice' else 'F'} {size} 2 {len(INIT2)} {init} " + " ".join(ops)
     init = " ".join(f"{n} {v}" for n, v in INIT.items())
-    return f"{ar} {UPT[kind]} {size} {len(INIT)} {init} " + " ".join(ops)
+    return f"{ar} {UPT[kind]} {size} {len(INIT)} {init} " + " ".join("p" + o[1:] if o.startswith("R:") else o for o in ops)
 
 
 def histories(alpha, lo, hi):
@@ -419,7 +447,7 @@ def run(ctx):
     three = list(histories(ALPHA_3, 3, L2))
     grid = [(s_, a_) for s_ in (0, 1, 2, -1) for a_ in (1, 0)]
     quick_grid = [(0, 1), (1, 1), (1, 0), (-1, 1), (-1, 0)]
-    for size, ar in (quick_grid if ctx.tier == "quick" else [(0, 1), (1, 1), (1, 0), (2, 1), (-1, 1), (-1, 0)]):
+    for size, ar in (quick_grid if ctx.tier == "quick" else [(0, 1), (1, 1), (1, 0), (2, 1), (-1, 0)]):
         if True:
             for h in full:
                 cases.append(("dict", ar, size, h))
@@ -451,6 +479,12 @@ def run(ctx):
     tog = [h for h in histories(ALPHA_TOG, 2, L1) if any(o.startswith("a:") for o in h)]
     for kind, size, ar in (("dict", 1, 0), ("dict", -1, 0), ("fs", -1, 0)) + ((("dict", 2, 1), ("fs", 1, 0), ("funcV", -1, 0)) if ctx.tier != "quick" else ()):
         for h in tog:
+            cases.append((kind, ar, size, h))
+    # the same source changes made by replacing the loader's container (loader.mapping = {...}, load_func, searchpath)
+    rep = [h for h in histories(ALPHA_REP, 2, L1) if any(o.startswith("R:") for o in h)]
+    for kind, size, ar in (("dict", 1, 1), ("dict", -1, 1), ("dict", -1, 0), ("funcV", -1, 1), ("fs", -1, 1)) + \
+            ((("dict", 2, 1), ("fs", 1, 1)) if ctx.tier != "quick" else ()):
+        for h in rep:
             cases.append((kind, ar, size, h))
     # layered loaders: FileSystemLoader with two search paths, ChoiceLoader of two DictLoaders; layer 1 shadows layer 2
     lay_h = list(histories(ALPHA_LAY, 0, L1))
